@@ -34,3 +34,13 @@ Theorem C18_split_is_model_split :
   Splits.apply_split f s = Seq.do_split (Splits.sp_worker f) s.
 Proof. exact (SplitFacts.all_ok_are_do_split SplitFns.splits (proj1 C18_splits_source)). Qed.
 Print Assumptions C18_split_is_model_split.
+
+(** the heap constructors of the source (regenerated on every run into gen/Ctors.v): a [default(capacity)] / [new_zeroed(capacity)]
+    buffer has exactly [capacity] cells (without vmem; with vmem: [C17_round]), and [_from] of both variants is the plain constructor
+    (length of the storage, zero length refused, published indices 0, no liveness flag set) - the state [init] of the Model starts from *)
+Require MRB.gen.Ctors.
+Theorem C18_constructors_source :
+  (forall capacity, Ctors.default_len capacity = capacity /\ Ctors.new_zeroed_len capacity = capacity) /\
+  forallb (fun x => snd x) Ctors.from_ok = true /\ length Ctors.from_ok = 2 /\ Ctors.extractor_clean = true.
+Proof. split; [intros; split; reflexivity | vm_compute; repeat split]. Qed.
+Print Assumptions C18_constructors_source.
